@@ -29,8 +29,8 @@ PROPS = {
     },
     "C03": {
         "coq": "Properties/C03.v",
-        "coq_extra": ["Properties/C03M.v"],
-        "pinchecks": ["PinChecks/PcRoleGraph.v"] + ["PinChecks/PcBody_frolemanager.v"],
+        "coq_extra": ["Properties/C03M.v", "Properties/RoleManagerGen.v"],
+        "pinchecks": ["PinChecks/PcRoleGraph.v", "PinChecks/PcRoleManagerGen.v"] + ["PinChecks/PcBody_frolemanager.v"],
         "gen": "c03",
         "level_text": "Coq theorems over Model/RoleGraph.v, for every history of add_link/delete_link/clear and every query: the per-domain "
                       "edge set refines the set-semantics spec (c03_links_refine), has_link is sound at every depth (c03_sound) and complete "
@@ -57,7 +57,7 @@ PROPS = {
         "coq": "Properties/C01.v",
         "coq_extra": ["Properties/C16e.v"],
         "pinchecks": ["PinChecks/PcBody_enf.v", "PinChecks/PcEnforceGen.v", "PinChecks/PcEnforcerGen.v", "PinChecks/PcLiterals.v", "PinChecks/PcBody_fmacros.v", "PinChecks/PcEffector.v", "PinChecks/PcEffectorGen.v",
-                      "PinChecks/PcBody_fconvert.v", "PinChecks/PcBody_util.v", "PinChecks/PcStrFnGen.v"] + ["PinChecks/PcBody_model.v", "PinChecks/PcStoreGen.v", "PinChecks/PcLinksGen.v", "PinChecks/PcRoleGraph.v"],
+                      "PinChecks/PcBody_fconvert.v", "PinChecks/PcBody_util.v", "PinChecks/PcStrFnGen.v"] + ["PinChecks/PcBody_model.v", "PinChecks/PcStoreGen.v", "PinChecks/PcLinksGen.v", "PinChecks/PcRoleGraph.v", "PinChecks/PcRoleManagerGen.v"],
         "gen": "c01",
         "level_text": "Coq theorem c01_enforce_is_perm: for EVERY model store, matcher AST, function table, request (any arity/types), "
                       "effect rule and flag the enforcement loop of the model equals the PERM reference (per-rule outcomes in stored order, "
@@ -94,7 +94,7 @@ PROPS = {
 }
 
 
-ENGINE_PINS = ["PinChecks/PcBody_enf.v", "PinChecks/PcEnforceGen.v", "PinChecks/PcEnforcerGen.v", "PinChecks/PcBody_model.v", "PinChecks/PcStoreGen.v", "PinChecks/PcLinksGen.v", "PinChecks/PcInternalGen.v", "PinChecks/PcBody_adapters.v", "PinChecks/PcBody_fmgmtapi.v", "PinChecks/PcApiGen.v", "PinChecks/PcBody_frbacapi.v", "PinChecks/PcRoleGraph.v", "PinChecks/PcLiterals.v", "PinChecks/PcBody_fmacros.v"]
+ENGINE_PINS = ["PinChecks/PcBody_enf.v", "PinChecks/PcEnforceGen.v", "PinChecks/PcEnforcerGen.v", "PinChecks/PcBody_model.v", "PinChecks/PcStoreGen.v", "PinChecks/PcLinksGen.v", "PinChecks/PcInternalGen.v", "PinChecks/PcBody_adapters.v", "PinChecks/PcBody_fmgmtapi.v", "PinChecks/PcApiGen.v", "PinChecks/PcBody_frbacapi.v", "PinChecks/PcRoleGraph.v", "PinChecks/PcRoleManagerGen.v", "PinChecks/PcLiterals.v", "PinChecks/PcBody_fmacros.v"]
 ENGINE_NOTE = ("trusted: Coq kernel, extraction, harness; modelled not verified: hashlink LinkedHashSet/LinkedHashMap order (insert moves an existing entry "
                "to the back), petgraph adjacency order, rhai on the matcher fragment; adapters are modelled at the level of parsed lines (the CSV text level is "
                "C16/C09-text); every modelled function body is pinned by hash to the source it was aligned with")
@@ -103,7 +103,7 @@ PROPS.update({
     "C06": {
         "coq": "Properties/C06.v",
         "pinchecks": ["PinChecks/PcBody_enf.v", "PinChecks/PcEnforceGen.v", "PinChecks/PcEnforcerGen.v", "PinChecks/PcBody_fmap.v", "PinChecks/PcStrFnGen.v", "PinChecks/PcLiterals.v", "PinChecks/PcEffector.v", "PinChecks/PcEffectorGen.v", "PinChecks/PcBody_fconvert.v",
-                      "PinChecks/PcBody_fmacros.v", "PinChecks/PcRoleGraph.v"] + ["PinChecks/PcBody_ferror.v"],
+                      "PinChecks/PcBody_fmacros.v", "PinChecks/PcRoleGraph.v", "PinChecks/PcRoleManagerGen.v"] + ["PinChecks/PcBody_ferror.v"],
         "gen": "c06",
         "partial": "never-hang / never-panic of the regex crate and of rhai is NOT a theorem: it is watchdog + catch_unwind evidence from the differential run; "
                    "the theorems cover the model's enforcement loop and built-ins",
@@ -314,7 +314,7 @@ PROPS.update({
 PROPS.update({
     "C20": {
         "coq": "Properties/C20.v",
-        "pinchecks": ["PinChecks/PcLocks.v", "PinChecks/PcBody_fmacros.v", "PinChecks/PcBody_frbacapi.v", "PinChecks/PcBody_enf.v", "PinChecks/PcEnforceGen.v", "PinChecks/PcEnforcerGen.v", "PinChecks/PcBody_fcachedenforcer.v", "PinChecks/PcCachedGen.v"] + ["PinChecks/PcBody_fdefaultcache.v", "PinChecks/PcCached.v", "PinChecks/PcRoleGraph.v"],
+        "pinchecks": ["PinChecks/PcLocks.v", "PinChecks/PcBody_fmacros.v", "PinChecks/PcBody_frbacapi.v", "PinChecks/PcBody_enf.v", "PinChecks/PcEnforceGen.v", "PinChecks/PcEnforcerGen.v", "PinChecks/PcBody_fcachedenforcer.v", "PinChecks/PcCachedGen.v"] + ["PinChecks/PcBody_fdefaultcache.v", "PinChecks/PcCached.v", "PinChecks/PcRoleGraph.v", "PinChecks/PcRoleManagerGen.v"],
         "gen": "c20",
         "partial": "PARTIAL by nature: the theorems are about an abstract small-step semantics of two writer-preferring, non-re-entrant read-write locks and the "
                    "thread programs the code follows; that rustc / parking_lot / mini-moka / rhai implement those semantics (memory model, fairness, Send/Sync "
